@@ -102,11 +102,17 @@ def theorems_in(props_file):
     return ns, names
 
 
-def lake_build(targets, engines=()):
+def lake_build(targets, engines=(), pid=None):
+    """build under the lock and, still under the lock, take a private copy of the driver (another check running
+    concurrently may regenerate Driver/Main.lean with a different engine set and relink n2kdrv)"""
     with Lock('lake.lock'):
         gen_driver_main.run(engines)
         t0 = time.time()
         r = run(['lake', 'build'] + targets, cwd=LEAN)
+        drv = os.path.join(LEAN, '.lake', 'build', 'bin', 'n2kdrv')
+        if pid and os.path.exists(drv):
+            os.makedirs(os.path.join(BUILD, pid), exist_ok=True)
+            shutil.copy2(drv, os.path.join(BUILD, pid, 'n2kdrv'))
         return r.returncode == 0, r.stdout, time.time() - t0
 
 
@@ -209,7 +215,9 @@ def run_harness(binp, outdir, seed, tier, replay=None, timeout=3600):
 
 
 def run_driver(engine, outdir):
-    drv = os.path.join(LEAN, '.lake', 'build', 'bin', 'n2kdrv')
+    drv = os.path.join(os.path.dirname(outdir), 'n2kdrv')
+    if not os.path.exists(drv):
+        drv = os.path.join(LEAN, '.lake', 'build', 'bin', 'n2kdrv')
     with open(os.path.join(outdir, 'ops.txt')) as fin, open(os.path.join(outdir, 'model.out'), 'w') as fout:
         r = subprocess.run([drv, engine], stdin=fin, stdout=fout, stderr=subprocess.PIPE, text=True)
     return r.returncode, r.stderr
@@ -367,7 +375,7 @@ def main():
         tmp = os.path.join(BUILD, pid, 'replay_ops.txt')
         os.makedirs(os.path.dirname(tmp), exist_ok=True)
         open(tmp, 'w').write('\n'.join(rp.get('ops', [])) + '\n')
-        ok, out, _ = lake_build(['n2kdrv'], [spec['engine']])
+        ok, out, _ = lake_build(['n2kdrv'], [spec['engine']], pid)
         variant = rp.get('variant') or (spec.get('variants', [''])[0])
         binp, err = build_harness(pid, spec, variant)
         if not binp:
@@ -396,7 +404,7 @@ def main():
 
     # ---- 2. prove
     modules = spec['lean_modules']
-    ok, out, dt = lake_build(modules + ['n2kdrv'], [spec['engine']])
+    ok, out, dt = lake_build(modules + ['n2kdrv'], [spec['engine']], pid)
     ev_extra['lake_build_s'] = round(dt, 1)
     if not ok:
         errs = [l for l in out.split('\n') if 'error' in l][:20]
